@@ -425,6 +425,11 @@ inline const std::string &scratch_dir ()
 		mkdir (base.c_str (), 0777) ;
 		d = base + "/p" + std::to_string ((long) getpid ()) ;
 		mkdir (d.c_str (), 0777) ;
+		// pids are recycled: a directory left behind by a process that was killed must not leak files (SD2 resource
+		// forks "._name", ALAC temp files) into this run
+		{	DIR *dir = opendir (d.c_str ()) ;
+			if (dir) { while (auto *e = readdir (dir)) { std::string n = e->d_name ; if (n != "." && n != "..") unlink ((d + "/" + n).c_str ()) ; } closedir (dir) ; }
+		}
 		setenv ("TMPDIR", d.c_str (), 1) ;
 	}
 	return d ;
